@@ -486,6 +486,8 @@ class Gen:
         # drop attributes / doc comments inside the definition (field attrs such as #[get = ..])
         text = strip_inner_attrs(text)
         text = re.sub(r"\bpub\s*\(\s*(crate|super)\s*\)", "pub", text)  # R7: visibility widened, no semantics
+        if kind == "struct":
+            text = widen_fields(text)
         if extra:
             self.emit(extra)
         a, b = self.emit(text)
@@ -752,6 +754,49 @@ def strip_inner_attrs(text):
     s = "".join(out)
     s = re.sub(r"\n\s*\n", "\n", s)
     return s
+
+
+def widen_fields(text):
+    """R7: make every named field of a struct `pub` (visibility has no runtime meaning; Verus needs it for specs)."""
+    toks = tokenize(text)
+    # find the struct body `{ ... }` at depth 0 (skip generics / where clauses)
+    k = 0
+    while k < len(toks) and not (toks[k].kind == "punct" and toks[k].text == "{"):
+        if toks[k].kind == "punct" and toks[k].text in ("(", "["):
+            k = match_close(toks, k)
+        k += 1
+    if k >= len(toks):
+        return text
+    close = match_close(toks, k)
+    out = [t.text for t in toks[:k + 1]]
+    expect_field = True
+    j = k + 1
+    while j < close:
+        t = toks[j]
+        if t.kind in ("ws", "comment"):
+            out.append(t.text)
+            j += 1
+            continue
+        if expect_field:
+            if not (t.kind == "ident" and t.text == "pub"):
+                out.append("pub ")
+            expect_field = False
+        if t.kind == "punct" and t.text in rustlex.OPEN:
+            e = match_close(toks, j)
+            out.extend(x.text for x in toks[j:e + 1])
+            j = e + 1
+            continue
+        if t.kind == "punct" and t.text == "<":
+            e = match_angle(toks, j)
+            out.extend(x.text for x in toks[j:e + 1])
+            j = e + 1
+            continue
+        if t.kind == "punct" and t.text == ",":
+            expect_field = True
+        out.append(t.text)
+        j += 1
+    out.extend(t.text for t in toks[close:])
+    return "".join(out)
 
 
 def rewrite_signature(sig, name, emit_name, ret, opts):
